@@ -138,6 +138,12 @@ class CoreEnforcer:
         self.model.load_model(self.model_path)
         self.model.print_model()
         self.fm = FunctionMap.load_function_map()
+        self._refresh_effector()
+
+    def _refresh_effector(self):
+        """the effector combines rule effects as the CURRENT model's policy_effect says."""
+        if self.model is not None and "e" in self.model.keys() and "e" in self.model["e"].keys():
+            self.eft = get_effector(self.model["e"]["e"].value)
 
     def get_model(self):
         """gets the current model."""
@@ -149,6 +155,7 @@ class CoreEnforcer:
 
         self.model = m
         self.fm = FunctionMap.load_function_map()
+        self._refresh_effector()
 
     def get_adapter(self):
         """gets the current adapter."""
